@@ -396,7 +396,9 @@ def gen_world_model(rng, structured=None, use_cache="rand", nfiles=None, sizes=N
     macros = None
     if rng.random() < custom_macros_p:
         macros = rng.choice([[("log", "info"), ("log", "warn")], [("mylog", "note"), ("mylog", "alert"), ("log", "error")],
-                             [("tracing", "event")], [("log", "info"), ("log", "infoo"), ("log", "in")]])
+                             [("tracing", "event")], [("log", "info"), ("log", "infoo"), ("log", "in")],
+                             [("crate::util::log", "info"), ("my::log", "warn")], [("log", "info"), ("other", "info")],
+                             [("log", "r#try"), ("log", "info")][1:], [("log", "_trace"), ("log", "info2")]])
     g = Gen(rng, macros)
     if structured is None:
         structured = rng.random() < 0.4
